@@ -801,7 +801,8 @@ func runC38(r *ev.Run) (ev.Coverage, []string) {
 	return cov, assumptions
 }
 
-const c38Quick, c38Thorough = 150 * time.Second, 10 * time.Minute
+// the whole quick space takes ~90 s on an idle 16-core machine; the budget leaves room for a loaded one
+const c38Quick, c38Thorough = 300 * time.Second, 15 * time.Minute
 
 func routeCount(seeds []Seed) int {
 	m := map[string]bool{}
